@@ -9,5 +9,7 @@ def run(ctx):
         ("scripted-nonidem-3x1", ["-nodes", "3", "-numconns", "1", "-clients", "2", "-workers", "3", "-round", "80"], True),
         ("scripted-nonidem-2x2", ["-nodes", "2", "-numconns", "2", "-clients", "2", "-workers", "3", "-round", "80"], True),
         ("random-drops-3x1", ["-random", n(500, 4000), "-nodes", "3", "-numconns", "1", "-clients", "3", "-workers", "4", "-round", "150", "-droprate", "0.5", "-okbias", "1"], False),
+        # connections closed by the proxy itself (a node falls silent, the idle timeout passes) with requests outstanding
+        ("idle-close-3x1", ["-random", n(160, 1200), "-nodes", "3", "-numconns", "1", "-clients", "3", "-workers", "4", "-round", "80", "-idleclose", "-okbias", "2", "-nodrops"], False),
     ]
     rf.run_property(ctx, "C04", plans, scenario_filter=lambda s: not s["idem"], nscen=500)
